@@ -5,9 +5,6 @@ import (
 	"bytes"
 	"fmt"
 	"io"
-	"runtime"
-	"runtime/debug"
-	"sync"
 	"testing"
 	"time"
 
@@ -44,12 +41,9 @@ var runs int
 
 func body(s *simrt.Sim, tier string) {
 	runs++
-	if runs%40 == 0 {
-		runtime.GC() // GC is off during runs (sync.Pool determinism); collect between them
-	}
-	// package-level state must not leak from one simulated run into the next (a run has to be a
-	// pure function of its tape): start every run with an empty buffer pool
-	enc.BufPool = sync.Pool{New: enc.BufPool.New}
+	// (package-level state must not leak from one simulated run into the next: the kit's sync.Pools are
+	// woven onto the simulator's model of a pool, which starts every run empty and does not depend on
+	// the P a goroutine runs on or on garbage collections)
 	// swarm: every run enables a random subset of the component families, so that the goroutines of
 	// one family meet each other often instead of being diluted among a dozen unrelated ones
 	fam := 1 + s.Choose(15, "families") // bit 0 pipelines (+ pool scribbler), 1 loggers, 2 cron parsers, 3 byte-slice pools
@@ -157,12 +151,12 @@ func body(s *simrt.Sim, tier string) {
 		names = append(names, "scribbler")
 		s.Go("scribbler", func() {
 			for i, n := 0, 2+s.Choose(6, "scribbles"); i < n; i++ {
-				b := enc.BufPool.Get().(*[]byte)
+				b := simrt.PoolGet(&enc.BufPool).(*[]byte)
 				for j := range *b {
 					(*b)[j] = marker
 				}
 				s.Yield("scribble")
-				enc.BufPool.Put(b)
+				simrt.PoolPut(&enc.BufPool, b)
 				s.Yield("scribbled")
 				s.Fault("pool.scribble")
 			}
@@ -334,6 +328,5 @@ func body(s *simrt.Sim, tier string) {
 }
 
 func TestWorker(t *testing.T) {
-	debug.SetGCPercent(-1)
 	common.Main(t, common.Harness{ID: "C08", NoDelays: true, MaxSteps: 400000, SeedCrypto: true, Body: body})
 }
